@@ -130,8 +130,8 @@ def get_num_starts(td, env_name=None):
         num_starts = (
             num_starts - 1
         ) // 2  # only half of the nodes (i.e. pickup nodes) can be start nodes
-    elif env_name in ["cvrp", "cvrptw", "sdvrp", "mtsp", "op", "pctsp", "spctsp"]:
-        num_starts = num_starts - 1  # depot cannot be a start node
+    elif env_name in ["cvrp", "cvrptw", "sdvrp", "mtsp", "op", "pctsp", "spctsp", "smtwtp"]:
+        num_starts = num_starts - 1  # depot (or dummy start node) cannot be a start node
 
     return num_starts
 
@@ -147,7 +147,7 @@ def select_start_nodes(td, env, num_starts):
         num_starts: Number of nodes to select. This may be passed when calling the policy directly. See :class:`rl4co.models.AutoregressiveDecoder`
     """
     num_loc = env.generator.num_loc if hasattr(env.generator, "num_loc") else 0xFFFFFFFF
-    if env.name in ["tsp", "atsp", "flp", "mcp"]:
+    if env.name in ["tsp", "atsp", "flp", "mcp", "dpp", "mdpp"]:
         selected = (
             torch.arange(num_starts, device=td.device).repeat_interleave(td.shape[0])
             % num_loc
